@@ -117,7 +117,9 @@ EDITS = ["add_node", "remove_node", "add_edge", "remove_edge", "change_weight", 
          # the two objects differ only in the ORDER of a list-valued metadata value
          "node_meta_list_order", "edge_meta_list_order", "hg_meta_list_order",
          # ... or only in an integer beyond 2**53 (distinct ints, equal as floats)
-         "node_meta_big_int", "edge_meta_big_int", "hg_meta_big_int", "weight_big_int"]
+         "node_meta_big_int", "edge_meta_big_int", "hg_meta_big_int", "weight_big_int",
+         # ... or only in one weight being 0 on one side and 1 (the default) on the other
+         "weight_zero_vs_one"]
 MARK = "CHANGED"
 
 
@@ -224,6 +226,11 @@ def apply_edit(T, U, e, kind):
             return None
         key = keys[e["pick"] % len(keys)]
         T1["edges"][key][0], T2["edges"][key][0] = 2 ** 53, 2 ** 53 + 1
+    elif kind == "weight_zero_vs_one":
+        if not keys or not T["weighted"]:
+            return None
+        key = keys[e["pick"] % len(keys)]
+        T1["edges"][key][0], T2["edges"][key][0] = (0, 1) if e["pick2"] % 2 else (1, 0)
     elif kind.endswith("_list_order") or kind.endswith("_big_int"):
         a, b = [1, 2, "x"], [2, 1, "x"]
         if e["pick2"] % 2:
@@ -286,7 +293,7 @@ def check_edit(case, ctx):
         if c1 == c2 and B._same_types(c1, c2):
             raise HarnessError("edit %r did not change the content" % (kind,))
         if (kind.startswith("flip_weighted") or kind.endswith("_list_order")
-                or kind.endswith("_big_int")):
+                or kind.endswith("_big_int") or kind == "weight_zero_vs_one"):
             # the only edits that also adjust the first content
             hx, bx = B.build(T1, U, case["a"], hash_fn=_hash())
             v1 = _hash_checked(hx, "the first object")
